@@ -218,3 +218,25 @@ def c19_jobs(Job, tier):
         js.append(sector_count_job(Job, cfg))
         js.append(visit_job(Job, cfg))
     return js
+
+
+# ---- C04 extras: MMB constructor, view parameters of the sector-dump containers ------------------------------
+def mmb_jobs(Job, cfg=CFG_NDEBUG, tier="quick"):
+    return [Job("D_mmb_ctor_%s" % cfg[0], "harness/dfs_mmb.c", "h_mmb", enforce=["MmbFile_ctor"], loops=True,
+                defines=list(cfg[1]), extract=ext(["sector_count", "MmbFile_ctor"]), tier=tier, cover=True)]
+
+
+SDF_GROUP = ["sector_count", "Geometry_total_sectors", "noninterleaved_views", "interleaved_views"]
+
+
+def sdf_jobs(Job, cfg=CFG_NDEBUG, tier="quick"):
+    def J(name, entry, enforce, **kw):
+        return Job("D_%s_%s" % (name, cfg[0]), "harness/dfs_sdf.c", entry, enforce=enforce, defines=list(cfg[1]),
+                   extract=ext(SDF_GROUP), tier=tier, solver="portfolio", **kw)
+    return [J("geometry_total_sectors", "h_total_sectors", ["Geometry_total_sectors"], replace=["sector_count"]),
+            J("noninterleaved_views", "h_noninterleaved", ["noninterleaved_views"], replace=["Geometry_total_sectors", "sector_count"], loops=True, cover=True),
+            J("interleaved_views", "h_interleaved", ["interleaved_views"], replace=["Geometry_total_sectors"], cover=True)]
+
+
+def c04_extra(Job, tier):
+    return mmb_jobs(Job) + sdf_jobs(Job)
